@@ -87,7 +87,9 @@ def vary(case, rng, k):
         for e in asm_edits:
             e["constraints"] = {"preserve": rng.random() < 0.7, "scratch": rng.choice([0, 1, 2]), "flags": rng.random() < 0.5,
                                 "clobbers": rng.sample(["rax", "rbx", "rcx", "rdx", "rsi", "rdi", "r8", "r12"], rng.randint(0, 3))}
-    if k % 5 == 1:
+    if k % 5 == 1 and not case.get("sections"):
+        # (only with one section: where gtirb_layout puts each of several sections is the dependency's set-order
+        # matter, and apply() visits the blocks in address order, so patch ids would follow it)
         case["no_addr"] = True
     if k % 7 == 2:
         return three_callers(rng)
